@@ -67,6 +67,7 @@ void h_new (void)
 	if (b == NULL) {
 		OBL (g_shm_obj == NULL && g_shm_free_calls == (g_shm_new_failed ? 0 : 1), "failure: segment handle released (exactly once), nothing kept");
 		OBL (g_shm_new_failed || g_alloc_failed || (!existed && size == 0), "fails only for a reason");
+		OBL (g_shm_own_calls == 0, "a failed open never takes ownership: the names of an existing buffer and its lock survive the failure of one more handle");
 		CANARY ("new failed");
 	} else {
 		OBL (g_shm_obj != NULL && b->shm == g_shm_obj && g_shm_free_calls == 0, "handle owns the segment handle");
